@@ -227,6 +227,13 @@ def monOp (op : String) (args : List String) : Option String :=
     let (xs, ts) ← pRepeat pNat n ts
     let (d, _) ← pNat ts
     some (verdict (monDepositD amp xs d))
+  | "mon_ss_pool_d" => do
+    -- <pool before> <n> <amounts after…>
+    let (p, ts) ← pPool args
+    let (n, ts) ← pNat ts
+    let (after, _) ← pRepeat pNat n ts
+    let amp := match p.ptype with | .stable a => a | .cp => 1
+    some (verdict (monSsPoolD amp p.decimals (p.assets.map (·.amount)) after))
   | "mon_ss_lp" => do
     -- <pool before> <n> <amounts after…> <supply before> <supply after>
     let (p, ts) ← pPool args
@@ -292,6 +299,17 @@ def monOp (op : String) (args : List String) : Option String :=
     match xs with
     | [balB, resB, balA, resA] =>
       some (if (balA : Int) - balB == (resA : Int) - resB then "ok" else "viol C04-reserves-vs-outflow")
+    | _ => none
+  | "mon_cp_deposit_tol" => do
+    -- C13: <tolerance> <reserve0> <reserve1> <deposit0> <deposit1> of an ACCEPTED constant-product deposit: the code's own
+    -- acceptance predicate (`assertSlippageTolerance`, characterised by C13.cp_deposit_accept_iff) must hold
+    let (tol, ts) ← pOptNat args
+    let (xs, _) ← pRepeat pNat 4 ts
+    match xs with
+    | [x, y, dx, dy] =>
+      some (match assertSlippageTolerance tol [⟨"a", dx⟩, ⟨"b", dy⟩] [⟨"a", x⟩, ⟨"b", y⟩] .cp with
+        | .ok _ => "ok"
+        | .error _ => "viol C13-deposit-tolerance")
     | _ => none
   | "mon_route_quote" => do
     -- C12: <SimulateSwapOperations return amount> <executed route's return amount> <pools pairwise distinct>
